@@ -169,7 +169,7 @@ func TestEnumeratedCommands(t *testing.T) {
 
 func TestRandomCommands(t *testing.T) {
 	all := []hx.Outcome{hx.Final, hx.FinalCC, hx.FinalTruncated, hx.Busy, hx.TimeoutCC, hx.Garbage, hx.BadSig, hx.Lost}
-	ev.Check(t, "TestRandomCommands", ev.PickN(1500, 160000), func(t *rapid.T) {
+	ev.Check(t, "TestRandomCommands", ev.PickN(1500, 600000), func(t *rapid.T) {
 		inSession := rapid.Bool().Draw(t, "inSession")
 		n := rapid.IntRange(1, 12).Draw(t, "len")
 		sc := make([]hx.Outcome, n)
